@@ -42,7 +42,6 @@ theorem opOf_none_of_notDefinedInClass {ops : Table} {a : String} {c : Class}
 structure OpFacts (ops : Table) (a : String) (c : Class) (op : Op) : Prop where
   name : op.name = a
   cls : op.spec.cls = c
-  lo : 1 ≤ op.pri
   hi : op.pri ≤ 1200
   noList : a ≠ "[]"
   noCurly : a ≠ "{}"
@@ -61,7 +60,7 @@ theorem opFacts {ops : Table} (hops : tableOK ops = true) {a : String} {c : Clas
     decide_eq_false_iff_not] at hd'
   obtain ⟨⟨⟨⟨⟨h1, h2⟩, h3⟩, h4⟩, h5⟩, h6⟩ := hd'
   subst hn
-  refine ⟨rfl, hc, h1.1, h1.2, h6.1, h6.2, ?_, ?_, ?_, ?_⟩
+  refine ⟨rfl, hc, h1, h6.1, h6.2, ?_, ?_, ?_, ?_⟩
   · intro hi
     apply opOf_none_of_notDefinedInClass
     rcases h2 with h2 | h2
